@@ -468,7 +468,7 @@ class _DQF:
 class _Lighter:
     """a part of another property run inside this check: same driver, model, rules — but its thorough tier is run by
     its own check (./check C02 --tier thorough); here the generators keep their quick budgets (random budgets x3 in
-    the thorough tier) so that C03's thorough tier stays inside its time budget"""
+    the thorough tier; every second script in the quick tier) so that C03 stays inside its time budgets"""
     def __init__(self, inner):
         self._inner = inner
 
@@ -476,7 +476,9 @@ class _Lighter:
         return getattr(self._inner, k)
 
     def scripts(self, tier, seed, scale=1):
-        return self._inner.scripts("quick", seed, scale * (3 if tier == "thorough" else 1))
+        xs = self._inner.scripts("quick", seed, scale * (3 if tier == "thorough" else 1))
+        # quick tier: every second script (the full set is C02's own quick tier; which half alternates with the seed)
+        return xs if tier != "quick" else xs[seed % 2::2]
 
 
 extra_parts = [_Lighter(q) for q in [_c02] + list(getattr(_c02, "extra_parts", []))] + [_DQF]
